@@ -666,6 +666,14 @@ class RankEnv:
                 for n, f in sd['layers'].items()
             }
         writer = min(ranks) if ranks is not None else 0
+        if inc_f and any(f['A'] is None or f['G'] is None
+                         for f in sd['layers'].values()):
+            # a state taken before the first factor update holds A=G=None and
+            # documents itself as not invertible; the simulated user does
+            # not overwrite a checkpoint with it (outside the domain of C09)
+            self.sim.probe('save_skipped_no_factors_yet')
+            rec['skipped'] = True
+            return
         if self.rank == writer:
             self.store.ckpt = {
                 'kfac': _ser(sd), 'model': _ser(self.model.state_dict()),
